@@ -2,6 +2,7 @@
 //! vdrive: executes schedules against the real iroh-docs code and records ndjson traces.
 //! It contains no oracle; TLC decides.
 
+mod heads;
 mod replica;
 mod world;
 
@@ -60,6 +61,12 @@ fn main() {
     let mut sum = Summary::default();
     match args.cmd.as_str() {
         "replica" => cmd_replica(&args, seed, &dir, &mut trace, &mut sum),
+        "heads" => {
+            let w = World::new(seed, 6, 2);
+            let mut rng = Rng::new(seed);
+            heads::run(&w, &mut rng, args.num("n", 300) as usize, &mut trace, &mut sum);
+            sum.add("histories", 1);
+        }
         other => {
             eprintln!("unknown command {other}");
             std::process::exit(2);
